@@ -449,10 +449,11 @@ impl Check for C10 {
                 files.push(json!({"path": join("x.map"), "b64": b64}));
                 expect_read = Some(join("x.map"));
                 // a literal whose text equals the comment text
-                let text = "# sourceMappingURL=x.map";
+                // with or without the comment marker in front
+                let text = if t.flag() { "# sourceMappingURL=x.map" } else { "//# sourceMappingURL=x.map" };
                 let lit = match kind {
                     "lookalike-string" => format!("var lookalike = \"{text}\";"),
-                    "lookalike-regex" => format!("var lookalike = /{text}/;"),
+                    "lookalike-regex" => format!("var lookalike = /{}/;", text.replace('/', "\\/")),
                     _ => format!("var lookalike = `{text}`;"),
                 };
                 lookalike = Some(lit.clone());
